@@ -1,4 +1,5 @@
 pub mod c02;
+pub mod c04;
 pub mod c05;
 pub mod c06;
 pub mod c07;
@@ -13,7 +14,7 @@ use crate::framework::Check;
 
 pub fn all() -> Vec<&'static dyn Check> {
     vec![
-        &c02::C02, &c05::C05, &c06::C06, &c07::C07, &c08::C08, &c09::C09, &c11::C11, &c16::C16, &c16::C17,
+        &c02::C02, &c04::C04, &c05::C05, &c06::C06, &c07::C07, &c08::C08, &c09::C09, &c11::C11, &c16::C16, &c16::C17,
         &c19::C19, &c22::C22,
     ]
 }
